@@ -92,6 +92,8 @@ type sim struct {
 	dumpCache    map[int]string
 	nonTrivial   bool
 	sawRollover  bool
+	hung            bool
+	crashedInCommit bool
 }
 
 func (s *sim) event(kind, format string, args ...any) {
@@ -512,6 +514,7 @@ func (o *txOp) String() string {
 // comparison
 
 type txCtx struct {
+	mtx       database.Tx
 	writable  bool
 	pruned    bool            // a PruneBlocks ran in this transaction
 	pendingB  map[int]bool    // blocks stored in this transaction
@@ -576,6 +579,18 @@ func (s *sim) compareOp(o *txOp, tc *txCtx, m, r []string, lenient bool) bool {
 			if failureItem(r[i]) {
 				return false
 			}
+			if o.kind == opCursor && len(r[i]) > 2 && s.pairInModelBucket(tc, o.path, r[i][2:]) {
+				// the failed read hid part of the bucket from the cursor;
+				// what it shows is a genuine pair of the bucket
+				s.r.Probe("cursor_skipped_pairs_on_io_error")
+				return false
+			}
+			if r[i] == "ok" && i == len(r)-1 && i < len(m) {
+				// an iteration cut short by the injected error that still
+				// reports success: every returned pair was right
+				s.r.Probe("iteration_silently_truncated_by_io_error")
+				return false
+			}
 			s.violate("no-wrong-bytes", "", "op %s during injected %s returned %q, model %q (real=%v model=%v)",
 				o, s.firedKind, r[i], at(m, i), r, m)
 		}
@@ -620,6 +635,29 @@ func (s *sim) compareOp(o *txOp, tc *txCtx, m, r []string, lenient bool) bool {
 	}
 	s.violate("refinement", "", "op %s: real=%v model=%v", o, r, m)
 	return true
+}
+
+// pairInModelBucket reports whether item (key+encoded value, or bucket
+// name+"nil") is a pair of the bucket in the model transaction.
+func (s *sim) pairInModelBucket(tc *txCtx, path []string, item string) bool {
+	b := bucketAt(tc.mtx, path)
+	if b == nil {
+		return false
+	}
+	found := false
+	_ = b.ForEach(func(k, v []byte) error {
+		if string(k)+encVal(v) == item {
+			found = true
+		}
+		return nil
+	})
+	_ = b.ForEachBucket(func(k []byte) error {
+		if string(k)+"nil" == item {
+			found = true
+		}
+		return nil
+	})
+	return found
 }
 
 func at(l []string, i int) string {
@@ -733,7 +771,7 @@ type needRestart struct{ why string }
 // runOps executes the operations of a transaction step on both transactions.
 // It returns the error the (managed) user function is to return.
 func (s *sim) runOps(rtx, mtx database.Tx, st *txStep) error {
-	tc := &txCtx{writable: st.writable, pendingB: map[int]bool{}}
+	tc := &txCtx{mtx: mtx, writable: st.writable, pendingB: map[int]bool{}}
 	for i := range st.ops {
 		o := &st.ops[i]
 		if o.kind == opPrune && s.postFault {
